@@ -10,7 +10,7 @@ Section Small.
 Variable b : board.
 Variable m : N.
 Hypothesis HR : Rep b.
-Hypothesis HV : valid (abs b) = true.
+Hypothesis HV : valid_core (abs b) = true.
 Hypothesis HL : legal_spec (abs b) m = true.
 
 Let from := mv_from m.
